@@ -1,11 +1,635 @@
-// Package c08 is the correspondence/oracle harness for property C08.
+// Package c08: fragment positions follow the PDF imaging model.
+//
+// Programs over {q,Q,cm,BT,ET,Tf,Tm,Td,TD,T*,TL,Tc,Tw,Tz,Tj,',"} plus Form XObjects
+// with /Matrix are generated as trees, rendered (a) to content-stream bytes for
+// text.NewExtractor().ExtractFromBytes and graphicsstate.NewGraphicsExtractor(), (b) to
+// the token line of the Lean driver (op c08.gs / c08.gfx).  A small reference of the
+// ISO 32000 semantics over big.Rat (ref.go) is the statement-level oracle and the
+// exactness guard; it shares nothing with the Lean model.
 package c08
 
-import "verifharness/hx"
+import (
+	"fmt"
+	"math"
+	"math/big"
+	"strconv"
+	"strings"
+
+	"github.com/tsawler/tabula/contentstream"
+	"github.com/tsawler/tabula/core"
+	"github.com/tsawler/tabula/graphicsstate"
+	"github.com/tsawler/tabula/text"
+
+	"verifharness/hx"
+)
 
 func init() { hx.Register("C08", Run, Replay) }
 
-// Run is not built yet for this property.
-func Run(c *hx.Ctx) { c.Note("C08: harness not built") }
+// ---- programs ---------------------------------------------------------------------
 
-func Replay(c *hx.Ctx, kase map[string]interface{}) {}
+type mat [6]*big.Rat
+
+type op struct {
+	K    string     // q Q cm BT ET Tf Tm Td TD T* TL Tc Tw Tz Tj ' " Do L
+	N    []*big.Rat // numeric operands
+	Sid  int        // string id of a show
+	Form *form      // Do
+}
+
+type form struct {
+	M    *mat // nil: no /Matrix
+	Body []op
+}
+
+func ri(n int64) *big.Rat    { return big.NewRat(n, 1) }
+func rf(n, d int64) *big.Rat { return big.NewRat(n, d) }
+
+func mk(a, b, c, d, e, f *big.Rat) mat { return mat{a, b, c, d, e, f} }
+func mi(a, b, c, d, e, f int64) mat    { return mk(ri(a), ri(b), ri(c), ri(d), ri(e), ri(f)) }
+
+func isShow(k string) bool { return k == "Tj" || k == "'" || k == "\"" }
+
+// wire number: integer or n/d
+func wnum(r *big.Rat) string {
+	if r.IsInt() {
+		return r.Num().String()
+	}
+	return r.Num().String() + "/" + r.Denom().String()
+}
+
+func wnums(rs []*big.Rat) string {
+	s := make([]string, len(rs))
+	for i, r := range rs {
+		s[i] = wnum(r)
+	}
+	return strings.Join(s, ",")
+}
+
+// tokens renders the program for the Lean driver.
+func tokens(p []op) []string {
+	var out []string
+	for _, o := range p {
+		switch o.K {
+		case "q", "Q", "BT", "ET", "T*":
+			out = append(out, o.K)
+		case "Tj", "'":
+			out = append(out, fmt.Sprintf("%s:%d", o.K, o.Sid))
+		case "\"":
+			out = append(out, fmt.Sprintf("\":%s,%d", wnums(o.N), o.Sid))
+		case "Do":
+			if o.Form.M != nil {
+				out = append(out, "Do:"+wnums(o.Form.M[:])+"[")
+			} else {
+				out = append(out, "Do[")
+			}
+			out = append(out, tokens(o.Form.Body)...)
+			out = append(out, "]")
+		default:
+			out = append(out, o.K+":"+wnums(o.N))
+		}
+	}
+	return out
+}
+
+// parseTokens is the inverse of tokens (used by Replay).
+func parseTokens(ts []string) ([]op, []string, error) {
+	var out []op
+	for len(ts) > 0 {
+		t := ts[0]
+		ts = ts[1:]
+		if t == "]" {
+			return out, ts, nil
+		}
+		if strings.HasPrefix(t, "Do") && strings.HasSuffix(t, "[") {
+			f := &form{}
+			if t != "Do[" {
+				ns, err := parseNums(t[3 : len(t)-1])
+				if err != nil || len(ns) != 6 {
+					return nil, nil, fmt.Errorf("bad token %q", t)
+				}
+				m := mat{ns[0], ns[1], ns[2], ns[3], ns[4], ns[5]}
+				f.M = &m
+			}
+			body, rest, err := parseTokens(ts)
+			if err != nil {
+				return nil, nil, err
+			}
+			f.Body, ts = body, rest
+			out = append(out, op{K: "Do", Form: f})
+			continue
+		}
+		k, v, has := strings.Cut(t, ":")
+		o := op{K: k}
+		if has {
+			ns, err := parseNums(v)
+			if err != nil {
+				return nil, nil, fmt.Errorf("bad token %q", t)
+			}
+			if isShow(k) {
+				o.Sid = int(ns[len(ns)-1].Num().Int64())
+				ns = ns[:len(ns)-1]
+			}
+			o.N = ns
+		}
+		out = append(out, o)
+	}
+	return out, nil, nil
+}
+
+func parseNums(s string) ([]*big.Rat, error) {
+	var out []*big.Rat
+	for _, f := range strings.Split(s, ",") {
+		r, ok := new(big.Rat).SetString(f)
+		if !ok {
+			return nil, fmt.Errorf("bad number %q", f)
+		}
+		out = append(out, r)
+	}
+	return out, nil
+}
+
+// exactDec is the exact decimal expansion of a dyadic rational (denominator 2^k needs at
+// most k fractional digits). strconv.FormatFloat(x,'f',-1,64) is NOT used for comparison:
+// it prints the shortest string that round-trips, which for values needing more than 17
+// significant digits is not the exact value.
+func exactDec(r *big.Rat) string {
+	if r.IsInt() {
+		return r.Num().String()
+	}
+	k := r.Denom().BitLen() - 1
+	s := strings.TrimRight(r.FloatString(k), "0")
+	return strings.TrimSuffix(s, ".")
+}
+
+// pdf number / expected value: exact decimal
+func pnum(r *big.Rat) string { return exactDec(r) }
+
+func showString(sid int) string { return fmt.Sprintf("s%d x", sid) }
+
+// render writes the content stream an independent PDF producer would write.
+func render(p []op, forms map[string]*core.Stream) []byte {
+	var sb strings.Builder
+	for _, o := range p {
+		switch o.K {
+		case "q", "Q", "BT", "ET", "T*":
+			sb.WriteString(o.K)
+		case "Tf":
+			sb.WriteString("/F1 " + pnum(o.N[0]) + " Tf")
+		case "Tj", "'":
+			sb.WriteString("(" + showString(o.Sid) + ") " + o.K)
+		case "\"":
+			sb.WriteString(pnum(o.N[0]) + " " + pnum(o.N[1]) + " (" + showString(o.Sid) + ") \"")
+		case "Do":
+			name := fmt.Sprintf("Fm%d", len(forms))
+			d := core.Dict{"Type": core.Name("XObject"), "Subtype": core.Name("Form")}
+			if o.Form.M != nil {
+				arr := core.Array{}
+				for i, r := range o.Form.M {
+					if r.IsInt() && i%2 == 0 {
+						arr = append(arr, core.Int(r.Num().Int64()))
+					} else {
+						f, _ := r.Float64()
+						arr = append(arr, core.Real(f))
+					}
+				}
+				d["Matrix"] = arr
+			}
+			st := &core.Stream{Dict: d}
+			forms[name] = st
+			st.Data = render(o.Form.Body, forms)
+			if len(st.Data) == 0 {
+				st.Data = []byte(" ")
+			}
+			sb.WriteString("/" + name + " Do")
+		case "L":
+			sb.WriteString(pnum(o.N[0]) + " " + pnum(o.N[1]) + " m " + pnum(o.N[2]) + " " + pnum(o.N[3]) + " l S")
+		default:
+			for _, r := range o.N {
+				sb.WriteString(pnum(r) + " ")
+			}
+			sb.WriteString(o.K)
+		}
+		sb.WriteString("\n")
+	}
+	return []byte(sb.String())
+}
+
+func num(r *big.Rat) core.Object {
+	if r.IsInt() {
+		return core.Int(r.Num().Int64())
+	}
+	f, _ := r.Float64()
+	return core.Real(f)
+}
+
+// operations builds the parsed form directly (used while the pinned content-stream parser
+// rejects the ' and " operators; forms are referenced by name as in render).
+func operations(p []op, forms map[string]*core.Stream) []contentstream.Operation {
+	var out []contentstream.Operation
+	for _, o := range p {
+		var ops []core.Object
+		switch o.K {
+		case "Tf":
+			ops = []core.Object{core.Name("F1"), num(o.N[0])}
+		case "Tj", "'":
+			ops = []core.Object{core.String(showString(o.Sid))}
+		case "\"":
+			ops = []core.Object{num(o.N[0]), num(o.N[1]), core.String(showString(o.Sid))}
+		case "Do":
+			before := len(forms)
+			render([]op{o}, forms)
+			ops = []core.Object{core.Name(fmt.Sprintf("Fm%d", before))}
+		case "L":
+			out = append(out,
+				contentstream.Operation{Operator: "m", Operands: []core.Object{num(o.N[0]), num(o.N[1])}},
+				contentstream.Operation{Operator: "l", Operands: []core.Object{num(o.N[2]), num(o.N[3])}},
+				contentstream.Operation{Operator: "S"})
+			continue
+		default:
+			for _, r := range o.N {
+				ops = append(ops, num(r))
+			}
+		}
+		out = append(out, contentstream.Operation{Operator: o.K, Operands: ops})
+	}
+	return out
+}
+
+func hasQuote(p []op) bool {
+	for _, o := range p {
+		if o.K == "'" || o.K == "\"" {
+			return true
+		}
+		if o.K == "Do" && hasQuote(o.Form.Body) {
+			return true
+		}
+	}
+	return false
+}
+
+func hasForm(p []op) bool {
+	for _, o := range p {
+		if o.K == "Do" {
+			return true
+		}
+	}
+	return false
+}
+
+// ---- adapter ------------------------------------------------------------------------
+
+// flushParser empties the content-stream parser's package-level operand stack, which a
+// failed parse leaves dirty (defect B2 of DESIGN section 7, owned by C03).
+func flushParser() { contentstream.NewParser([]byte("ET")).Parse() }
+
+// quoteParses: does the content-stream parser accept the ' and " operators? (set by
+// detectQuote at the start of Run/Replay; false on the pinned tree, DESIGN §7 B3)
+var quoteParses bool
+
+func detectQuote() {
+	_, err := contentstream.NewParser([]byte("(a) ' 1 2 (b) \"")).Parse()
+	flushParser()
+	quoteParses = err == nil
+}
+
+type implResult struct {
+	frags    []text.TextFragment
+	err      error
+	panicked string
+	viaOps   bool
+}
+
+func runText(p []op) implResult {
+	var res implResult
+	forms := map[string]*core.Stream{}
+	data := render(p, forms)
+	res.panicked = hx.Safe(func() {
+		e := text.NewExtractor()
+		if len(forms) > 0 {
+			xo := core.Dict{}
+			for k, v := range forms {
+				xo[k] = v
+			}
+			e.SetResourceContext(core.Dict{"XObject": xo}, func(r core.IndirectRef) (core.Object, error) {
+				return nil, fmt.Errorf("no indirect objects")
+			})
+		}
+		flushParser()
+		if hasQuote(p) && !quoteParses {
+			res.viaOps = true
+			forms2 := map[string]*core.Stream{}
+			res.frags, res.err = e.Extract(operations(p, forms2))
+		} else {
+			res.frags, res.err = e.ExtractFromBytes(data)
+		}
+	})
+	return res
+}
+
+// ff prints a float64 exactly (every finite float64 is a dyadic rational).
+func ff(x float64) string {
+	if math.IsInf(x, 0) || math.IsNaN(x) {
+		return strconv.FormatFloat(x, 'g', -1, 64)
+	}
+	r := new(big.Rat).SetFloat64(x)
+	return exactDec(r)
+}
+
+// implLine is the implementation's canonical reply for c08.gs; which positions and sizes
+// are exactly comparable is decided by the reference run (exactness guard).
+func implLine(res implResult, r *refRun) string {
+	if res.panicked != "" {
+		return "panic"
+	}
+	if res.err != nil {
+		return "err"
+	}
+	if len(res.frags) != len(r.shows) {
+		return fmt.Sprintf("count:%d", len(res.frags))
+	}
+	if len(res.frags) == 0 {
+		return "-"
+	}
+	parts := make([]string, len(res.frags))
+	for i, f := range res.frags {
+		sh := r.shows[i]
+		pos := "~,~"
+		if sh.known {
+			pos = ff(f.X) + "," + ff(f.Y)
+		}
+		sz := "~"
+		if sh.sizeExact {
+			sz = ff(f.FontSize * f.FontSize)
+		}
+		parts[i] = pos + "," + sz
+	}
+	return strings.Join(parts, ";")
+}
+
+// ---- one case ---------------------------------------------------------------------------
+
+type kase struct {
+	Family string `json:"family"`
+	Prog   string `json:"prog"`
+	PDF    string `json:"content_stream,omitempty"`
+}
+
+// checkText runs one text program: correspondence op + statement-level oracles.
+// oracle=false: the program is outside what ISO 32000 defines (unbalanced form content,
+// self-recursive forms); only the model is compared.
+func checkText(c *hx.Ctx, family string, p []op, oracle bool) {
+	toks := strings.Join(tokens(p), " ")
+	r := runRef(p)
+	if !r.exact {
+		c.Count("dropped-inexact")
+		return
+	}
+	res := runText(p)
+	k := kase{Family: family, Prog: toks, PDF: string(render(p, map[string]*core.Stream{}))}
+	c.Count("family:" + family)
+	if res.viaOps {
+		c.Count("via-Extract(ops)-because-parser-rejects-quote-operators")
+	}
+	c.Check("C08/panic", res.panicked == "", k, func() string { return res.panicked })
+	c.Op("c08.gs "+toks, implLine(res, r))
+	nontrivial := false
+	if oracle && res.panicked == "" {
+		if !c.Check("C08/error-class", (res.err != nil) == r.err, k, func() string {
+			return fmt.Sprintf("extraction error=%v, expected error=%v (unmatched Q)", res.err, r.err)
+		}) {
+			return
+		}
+		if r.err {
+			c.Count("result:error")
+			c.Case(toks, false)
+			return
+		}
+		if !c.Check("C08/fragment-count", len(res.frags) == len(r.shows), k, func() string {
+			return fmt.Sprintf("%d fragments for %d shows", len(res.frags), len(r.shows))
+		}) {
+			return
+		}
+		for i, f := range res.frags {
+			sh := r.shows[i]
+			if sh.known {
+				nontrivial = true
+				ok := ff(f.X) == pnum(sh.x) && ff(f.Y) == pnum(sh.y)
+				c.Count("show-after:" + sh.event)
+				c.Check("C08/"+sh.event, ok, k, func() string {
+					return fmt.Sprintf("show #%d %q: reported origin (%s,%s), ISO 32000 origin (0,0)·Tm·CTM = (%s,%s); Tm=%s CTM=%s",
+						i, f.Text, ff(f.X), ff(f.Y), pnum(sh.x), pnum(sh.y), sh.tm, sh.ctm)
+				})
+			}
+			if sh.similar {
+				// size² = fs²·|det Tm|·|det CTM|; exact when both scale factors are squares
+				want, _ := sh.size2.Float64()
+				got := f.FontSize * f.FontSize
+				ok := false
+				if sh.sizeExact {
+					ok = ff(got) == pnum(sh.size2)
+				} else {
+					d := got - want
+					if d < 0 {
+						d = -d
+					}
+					ok = d <= want/(1<<40)
+				}
+				c.Count("size-checked")
+				c.Check("C08/fontsize", ok, k, func() string {
+					return fmt.Sprintf("show #%d %q: FontSize=%s, expected sqrt(fs²·|det Tm|·|det CTM|)=sqrt(%s); Tm=%s CTM=%s",
+						i, f.Text, ff(f.FontSize), pnum(sh.size2), sh.tm, sh.ctm)
+				})
+			}
+		}
+	}
+	c.Case(toks, nontrivial)
+}
+
+// checkGfx: line end points of the graphics extractor for q/Q/cm programs.
+func checkGfx(c *hx.Ctx, family string, p []op) {
+	toks := strings.Join(tokens(p), " ")
+	r := runRef(p)
+	if !r.exact {
+		c.Count("dropped-inexact")
+		return
+	}
+	data := render(p, map[string]*core.Stream{})
+	k := kase{Family: family, Prog: toks, PDF: string(data)}
+	var lines []graphicsstate.ExtractedLine
+	var err error
+	pan := hx.Safe(func() {
+		flushParser()
+		ge := graphicsstate.NewGraphicsExtractor()
+		err = ge.ExtractFromBytes(data)
+		lines = ge.GetLines()
+	})
+	c.Count("family:" + family)
+	c.Check("C08/panic", pan == "", k, func() string { return pan })
+	out := "-"
+	if err != nil {
+		out = "err"
+	} else if len(lines) > 0 {
+		parts := make([]string, len(lines))
+		for i, l := range lines {
+			parts[i] = ff(l.Start.X) + "," + ff(l.Start.Y) + "," + ff(l.End.X) + "," + ff(l.End.Y)
+		}
+		out = strings.Join(parts, ";")
+	}
+	c.Op("c08.gfx "+toks, out)
+	if pan != "" {
+		return
+	}
+	if !c.Check("C08/error-class", (err != nil) == r.err, k, func() string {
+		return fmt.Sprintf("graphics extraction error=%v, expected error=%v", err, r.err)
+	}) || r.err {
+		c.Case("g "+toks, false)
+		return
+	}
+	if c.Check("C08/fragment-count", len(lines) == len(r.segs), k, func() string {
+		return fmt.Sprintf("%d lines for %d stroked segments", len(lines), len(r.segs))
+	}) {
+		for i, l := range lines {
+			s := r.segs[i]
+			ok := ff(l.Start.X) == pnum(s[0]) && ff(l.Start.Y) == pnum(s[1]) && ff(l.End.X) == pnum(s[2]) && ff(l.End.Y) == pnum(s[3])
+			c.Check("C08/gfx-line-cm", ok, k, func() string {
+				return fmt.Sprintf("line #%d reported (%s,%s)-(%s,%s), end points through the CTM are (%s,%s)-(%s,%s)",
+					i, ff(l.Start.X), ff(l.Start.Y), ff(l.End.X), ff(l.End.Y), pnum(s[0]), pnum(s[1]), pnum(s[2]), pnum(s[3]))
+			})
+		}
+	}
+	c.Case("g "+toks, len(lines) > 0)
+}
+
+// checkDquote: `aw ac (s) "` must behave exactly as `aw Tw ac Tc (s) '` — observed on the
+// position of a following show, which moves by the spacing-dependent advance. Both runs
+// take the same floating-point path, so the comparison is exact.
+func checkDquote(c *hx.Ctx, aw, ac *big.Rat, ctx []op) {
+	a := append(append([]op{}, ctx...), op{K: "\"", N: []*big.Rat{aw, ac}, Sid: 1}, op{K: "Tj", Sid: 2})
+	b := append(append([]op{}, ctx...), op{K: "Tw", N: []*big.Rat{aw}}, op{K: "Tc", N: []*big.Rat{ac}}, op{K: "'", Sid: 1}, op{K: "Tj", Sid: 2})
+	ra, rb := runText(a), runText(b)
+	k := kase{Family: "dquote", Prog: strings.Join(tokens(a), " ")}
+	c.Count("family:dquote")
+	ok := ra.panicked == "" && rb.panicked == "" && ra.err == nil && rb.err == nil && len(ra.frags) == 2 && len(rb.frags) == 2
+	if ok {
+		for i := range ra.frags {
+			if ra.frags[i].X != rb.frags[i].X || ra.frags[i].Y != rb.frags[i].Y || ra.frags[i].FontSize != rb.frags[i].FontSize {
+				ok = false
+			}
+		}
+	}
+	c.Check("C08/dquote-is-Tw-Tc-quote", ok, k, func() string {
+		return fmt.Sprintf("%s\" gives %s ; %s Tw %s Tc ' gives %s", pnum(aw)+" "+pnum(ac)+" (s) ", fragStr(ra), pnum(aw), pnum(ac), fragStr(rb))
+	})
+	c.Case("dq "+k.Prog, ok)
+}
+
+// checkAdvance: the origin is mapped through the *text* matrix, which a show advances —
+// not through the line matrix.  Only the direction is demanded (the amount depends on font
+// widths and is not claimed): under an upright, positively scaled Tm and CTM with
+// Tc = Tw = 0 a second consecutive show of a non-empty string lies strictly to the right
+// of the first, on the same baseline.
+func checkAdvance(c *hx.Ctx, r *hx.Rng) {
+	k1, k2 := int64(r.Range(1, 4)), int64(r.Range(1, 3))
+	p := []op{{K: "cm", N: []*big.Rat{ri(k2), ri(0), ri(0), ri(k2), small(r), small(r)}}, {K: "BT"}, {K: "Tf", N: []*big.Rat{ri(int64(r.Range(1, 24)))}},
+		{K: "Tm", N: []*big.Rat{ri(k1), ri(0), ri(0), ri(k1), small(r), small(r)}}}
+	if r.Bool() {
+		p = append(p, op{K: "Td", N: []*big.Rat{small(r), small(r)}})
+	}
+	p = append(p, op{K: "Tj", Sid: 0}, op{K: "Tj", Sid: 1})
+	checkAdvanceProg(c, p)
+}
+
+func checkAdvanceProg(c *hx.Ctx, p []op) {
+	res := runText(p)
+	k := kase{Family: "advance", Prog: strings.Join(tokens(p), " ")}
+	c.Count("family:advance")
+	ok := res.panicked == "" && res.err == nil && len(res.frags) == 2 &&
+		res.frags[1].X > res.frags[0].X && res.frags[1].Y == res.frags[0].Y
+	c.Check("C08/second-show-not-advanced", ok, k, func() string { return "fragments " + fragStr(res) })
+	c.Case("adv "+k.Prog, ok)
+}
+
+func fragStr(r implResult) string {
+	if r.panicked != "" {
+		return "panic " + r.panicked
+	}
+	if r.err != nil {
+		return "error " + r.err.Error()
+	}
+	var s []string
+	for _, f := range r.frags {
+		s = append(s, fmt.Sprintf("(%s,%s)", ff(f.X), ff(f.Y)))
+	}
+	return strings.Join(s, " ")
+}
+
+// ---- driver -----------------------------------------------------------------------------
+
+func Run(c *hx.Ctx) {
+	detectQuote()
+	c.Rep.Rule = "operator programs (length ≤ 40, q/Q depth ≤ 8, Form XObjects with /Matrix nested ≤ 3) over integer and dyadic " +
+		"matrices (translations, non-uniform scales, 90° rotations, reflections, integer shears); exhaustive over all ordered pairs of 28 " +
+		"positioning operators on a 5-matrix alphabet in 2 layouts; the property's quoted witnesses; q/Q/cm/line programs for the graphics " +
+		"extractor. Cases whose float evaluation could round are dropped by a big.Rat exactness guard. Non-trivial = at least one fragment " +
+		"whose origin the property determines was compared."
+	if !quoteParses {
+		c.Note("the pinned content-stream parser rejects the ' and \" operators (DESIGN §7 B3, owned by C06): programs containing them are fed to text.Extractor.Extract as parsed operations")
+	}
+	witnesses(c)
+	exhaustivePairs(c)
+	n := c.N(8000, 200000)
+	for i := 0; i < n; i++ {
+		r := c.Rng.Fork(uint64(i))
+		p, oracle := genProgram(r)
+		fam := "random"
+		if !oracle {
+			fam = "random-unbalanced-form"
+		}
+		checkText(c, fam, p, oracle)
+	}
+	ng := c.N(1500, 20000)
+	for i := 0; i < ng; i++ {
+		r := c.Rng.Fork(uint64(1<<32 + i))
+		checkGfx(c, "gfx-random", genGfx(r))
+	}
+	nd := c.N(60, 1000)
+	for i := 0; i < nd; i++ {
+		r := c.Rng.Fork(uint64(2<<32 + i))
+		tm := genMatrix(r)
+		ctx := []op{{K: "BT"}, {K: "Tf", N: []*big.Rat{ri(int64(r.Range(1, 4) * 125))}}, {K: "TL", N: []*big.Rat{ri(int64(r.Range(0, 30)))}},
+			{K: "Tm", N: tm[:]}}
+		aw, ac := ri(int64(r.Range(-9, 40))), ri(int64(r.Range(-9, 40)))
+		if aw.Cmp(ac) == 0 {
+			ac = new(big.Rat).Add(ac, ri(7))
+		}
+		checkDquote(c, aw, ac, ctx)
+	}
+	for i := 0; i < c.N(40, 400); i++ {
+		checkAdvance(c, c.Rng.Fork(uint64(3<<32+i)))
+	}
+	c.Rep.Exhaustive = false
+}
+
+func Replay(c *hx.Ctx, k map[string]interface{}) {
+	detectQuote()
+	prog, _ := k["prog"].(string)
+	fam, _ := k["family"].(string)
+	p, _, err := parseTokens(strings.Fields(prog))
+	if err != nil {
+		fmt.Println("replay: cannot parse program:", err)
+		return
+	}
+	switch {
+	case fam == "dquote":
+		// ctx … ":aw,ac,1 Tj:2
+		n := len(p)
+		checkDquote(c, p[n-2].N[0], p[n-2].N[1], p[:n-2])
+	case fam == "advance":
+		checkAdvanceProg(c, p)
+	case strings.HasPrefix(fam, "gfx"):
+		checkGfx(c, fam, p)
+	default:
+		checkText(c, fam, p, fam != "random-unbalanced-form" && fam != "recursive-form")
+	}
+	fmt.Printf("replayed %s program: %s\n", fam, prog)
+}
